@@ -136,7 +136,7 @@ _NEED = {
         "(self.n - res) as f64",
         "let s = p / (1. - p);",
         "let a = (n as f64 + 1.) * s;",
-        "let mut r = (1. - p).powf(n as f64);",
+        "let mut r = (n as f64 * (-p).ln_1p()).exp();",
         "while u > r as f64 {",
         "u -= r;",
         "r *= a / (x as f64) - s;",
@@ -246,6 +246,9 @@ REQUIRED_THEOREMS = [
     "Cv.C03.gamma_support_ge_one", "Cv.C03.gamma_support_lt_one",
     "Cv.C03.sampleN_length", "Cv.C03.sampleN_consecutive", "Cv.C03.sampleMatrix_shape", "Cv.C03.mvn_sampleN_shape",
     "Cv.C03.legacy_gamma_sqrt_domain", "Cv.C03.gamma_sqrt_domain",
+    "Cv.C03.zig_K_consistent", "Cv.C03.zig_equal_area", "Cv.C03.zig_R_consistent", "Cv.C03.zigY_strictly_decreasing",
+    "Cv.C03.beta_underflow_branch", "Cv.C03.beta_sample_support", "Cv.C03.gamma_support_nonneg",
+    "Cv.C03.chi_squared_support", "Cv.C03.poisson_mult_unique", "Cv.C03.mvn_sample_eq", "Cv.C03.sampleMatrix_total",
 ]
 RULE = ("per distribution x regime (gamma shape <1/3, <1, >=1 and beta / chi-squared / t built on it; Poisson rate <10, >=10, "
         ">=150; binomial inversion / BTPE, flipped p > 1/2, p in {0,1}, n = 0; degenerate equal bounds) x RNG seeds: the first "
@@ -330,8 +333,8 @@ def regime(dist, ps):
     if dist == "gamma":
         return gamma_regime(ps[0])
     if dist == "beta":
-        if max(ps[0], ps[1]) < 0.02:
-            return "tiny-shapes"          # both gamma variates underflow to 0 with noticeable probability
+        if min(ps[0], ps[1]) <= 0.005:
+            return "tiny-shapes"          # a gamma variate underflows to 0 with noticeable probability (open finding)
         return gamma_regime(ps[0]) + "," + gamma_regime(ps[1])
     if dist == "chi2":
         return gamma_regime(ps[0] / 2.0)
@@ -346,8 +349,8 @@ def regime(dist, ps):
         flip = "flip:" if p > 0.5 else ""
         q = 1.0 - p if p > 0.5 else p
         if q * float(n) <= 30.0:
-            if n == 2 ** 64 - 1:
-                return flip + "inversion:n=u64::MAX"
+            if q < 2.0 ** -53:
+                return flip + "inversion:p<2^-53"      # 1 - p rounds to 1
             return flip + "inversion"
         return flip + "btpe"
     if dist == "uniform":
@@ -660,7 +663,9 @@ def corpus():
         # F44 (fixed): Uniform whose width overflows returned +inf
         q_line("uniform", 7, 50000, KQ, [-1e308, 1e308]), s_line("uniform", 7, 20, [-1e308, 1e308]),
         # F45 (fixed): binomial inversion formed n + 1 in u64
-        s_line("binomial", 7, 5, [2 ** 64 - 1, 1e-19]), q_line("binomial", 7, 50000, KQ, [2 ** 64 - 1, 1e-19]),
+        s_line("binomial", 7, 5, [2 ** 64 - 1, 1e-19]), s_line("binomial", 7, 50, [2 ** 64 - 1, 1e-18]),
+        # F46 (fixed): 1 - p rounds to 1 for p < 2^-53, every draw was 0
+        q_line("binomial", 7, 50000, KQ, [2 ** 64 - 1, 1e-19]), q_line("binomial", 7, 50000, KQ, [10 ** 17, 1e-17]),
         # open finding du:panic:range>=2^63 (dependency alea: hi + 1 - lo overflows i64)
         s_line("du", 7, 5, [0, I64MAX]), s_line("du", 7, 5, [-2 ** 62, 2 ** 62]),
     ]
@@ -817,6 +822,8 @@ def oracle(lines, impl):
             L, where = dkw_lower_bound(dist, ps, n, kind, payload)
             eps = dkw_eps(n)
             if L > eps + CDF_SLACK:
+                if dist == "beta" and rg == "tiny-shapes" and where not in (0.0, 1.0):
+                    rg += ":interior"     # the open finding is about the mass at the end points only
                 fails.append(Failure(i, "%s:dkw:%s" % (dist, rg),
                                      "%s%r seed %d n %d: sup|F_n - F| >= %.6f at x = %r exceeds the DKW band %.6f (alpha = 1e-12)"
                                      % (dist, ps, o["seed"], n, L, where, eps), "%.6f" % eps))
